@@ -15,6 +15,8 @@ import SaModel.Lemmas.C04Excl
 import SaModel.Lemmas.C04ScopeLv
 import SaModel.Lemmas.C04SafeDT
 import SaModel.Lemmas.C04Physical
+import SaModel.Lemmas.C04PhysSize
+import SaModel.Props.C03Read
 /-
 C04 — round trip through a type-traced schema is the identity.
 
@@ -257,6 +259,29 @@ theorem C04_roundtrip_core (c : Trace.Code) (O : Trace.Options) (ext : Ext) (n :
     (by simpa [rootArr, Read.physical] using hphys hcols)
     (utf8Ok_lvO o t vs[i]) hcast
 
+/-- **`Read.physical` of the arrays built against a type-traced schema** — the size precondition of the reader, EVERY option
+(dictionary-encoded strings and string-stored enums included): at most `i64::MAX` records.  `Props.C03.toMarrow_physical` (the
+builders' counting invariant: a dictionary holds at most as many values as keys were pushed) with its size condition
+discharged from the shape of the documented mapping (never a FixedSizeList: `mapped_sizeOK`).  Replaces the former array-side
+hypothesis `hphys` of the round-trip theorems. -/
+theorem C04_physical (c : Trace.Code) (O : Trace.Options) (ext : Ext) (n : String) (fs : TFields) (vs : List Val)
+    (fields : List Field) (arrs : List Arr)
+    (h0 : O.overwrites = [])
+    (hwt : ∀ v ∈ vs, wt (.struct n fs) v = true)
+    (hlen : vs.length ≤ 9223372036854775807)
+    (hft : Trace.fromType c O (toTraceTy (.struct n fs)) = .ok fields)
+    (htm : toMarrow ext fields (vs.map (ser (.struct n fs))) = .ok arrs) : ∀ a ∈ arrs, Read.physical a = true := by
+  have hfields : fields = (mappingFields (viewOpts O) fs).toList := C04_fromType_fields c O h0 n fs fields hft
+  have hside := sideFs_toList (mappingFields (viewOpts O) fs) (mappingFields_side (viewOpts O) fs)
+  rw [← hfields] at hside
+  refine Props.C03.toMarrow_physical ext fields (vs.map (ser (.struct n fs))) arrs
+    (List.all_eq_true.mpr fun f hf => (hside f hf).2) ?_ ?_ htm
+  · intro x hx
+    obtain ⟨v, hv, rfl⟩ := List.mem_map.mp hx
+    exact (ser_ok _ v (hwt v hv)).1
+  · rw [List.length_map, hfields]
+    exact mapped_sizeOK (viewOpts O) fs vs.length hlen
+
 /-- **C04, through the real models** (`Trace.fromType`, `Build.toMarrow`, the reader model `Read.readAs` behind
 `readRecord` = `Deserializer::from_marrow` + item `i` + `T::deserialize`).
 
@@ -280,25 +305,25 @@ below an `Option<struct>` — where C01's per-builder append-only statement is f
 `exSafeFalse` in Props/C04Accept.lean) — is covered by the hidden-rows refinement (`C01_build_decode'`, `C03_wfS'` through its
 `coveredF` alternative: every traced schema is `coveredF`).
 
-`_partial`, remaining hypotheses — exactly:
-  `hphys`  `Read.physical`: the value count of every Dictionary column fits `i64` (true of any array in memory; Lean lists
-           are unbounded and neither `Spec.wf` nor the builder invariant bounds the NUMBER of dictionary values);
+`Read.physical` (the value count of every Dictionary column fits `i64`) is no longer a hypothesis: it is derived from the
+input-side bound `hlen` (at most `i64::MAX` records; `C04_physical`).
+`_partial`, remaining hypothesis — exactly ONE:
   `hext`   the external chrono parsers return values in range (`ExtOK`; no temporal column occurs in a traced schema, but
-           `Props.C01.C03_wfS'` asks for it unconditionally). -/
+           `Props.C01.C03_wfS'` asks for it unconditionally; a theorem for the codec models: `C04_end_to_end_codec`). -/
 theorem C04_roundtrip_partial (c : Trace.Code) (O : Trace.Options) (ext : Ext) (n : String) (fs : TFields) (vs : List Val)
     (fields : List Field) (arrs : List Arr)
     (h0 : O.overwrites = []) (hfrag : fragE (.struct n fs) = true) (hne : fs ≠ .nil)
     (hwt : ∀ v ∈ vs, wt (.struct n fs) v = true)
     (hsc : ∀ v ∈ vs, inScopeO (viewOpts O) (.struct n fs) v = true)
     (hext : Lemmas.C03.ExtOK ext)
-    (hphys : ∀ a ∈ arrs, Read.physical a = true)
+    (hlen : vs.length ≤ 9223372036854775807)
     (hft : Trace.fromType c O (toTraceTy (.struct n fs)) = .ok fields)
     (htm : toMarrow ext fields (vs.map (ser (.struct n fs))) = .ok arrs) :
     ∀ (i : Nat) (hi : i < vs.length),
       readRecord (toTarget (.struct n fs)) fields arrs i = .ok (dvalOf (.struct n fs) (norm (.struct n fs) vs[i])) := by
   intro i hi
   obtain ⟨hacc, hnew, hread⟩ := C04_roundtrip_core c O ext n fs vs fields arrs h0 hfrag hne hwt hsc hext
-    (fun _ => zip_physical fields arrs hphys) hft htm
+    (fun _ => zip_physical fields arrs (C04_physical c O ext n fs vs fields arrs h0 hwt hlen hft htm)) hft htm
   simp only [readRecord, hacc, bind, Except.bind]
   rw [hnew]
   simp only [Access.getIdx, ge_iff_le, Nat.not_le.mpr hi, if_false]
@@ -319,12 +344,12 @@ theorem C04_roundtrip_bulk_partial (c : Trace.Code) (O : Trace.Options) (ext : E
     (hwt : ∀ v ∈ vs, wt (.struct n fs) v = true)
     (hsc : ∀ v ∈ vs, inScopeO (viewOpts O) (.struct n fs) v = true)
     (hext : Lemmas.C03.ExtOK ext)
-    (hphys : ∀ a ∈ arrs, Read.physical a = true)
+    (hlen : vs.length ≤ 9223372036854775807)
     (hft : Trace.fromType c O (toTraceTy (.struct n fs)) = .ok fields)
     (htm : toMarrow ext fields (vs.map (ser (.struct n fs))) = .ok arrs) :
     readAll (toTarget (.struct n fs)) fields arrs = .ok (vs.map fun v => dvalOf (.struct n fs) (norm (.struct n fs) v)) := by
   obtain ⟨hacc, hnew, hread⟩ := C04_roundtrip_core c O ext n fs vs fields arrs h0 hfrag hne hwt hsc hext
-    (fun _ => zip_physical fields arrs hphys) hft htm
+    (fun _ => zip_physical fields arrs (C04_physical c O ext n fs vs fields arrs h0 hwt hlen hft htm)) hft htm
   simp only [readAll, hacc, bind, Except.bind]
   rw [hnew]
   simp only [Props.C13.bulk_eq_items]
@@ -348,11 +373,11 @@ theorem C04_roundtrip_identity_partial (c : Trace.Code) (O : Trace.Options) (ext
     (hwt : ∀ v ∈ vs, wt (.struct n fs) v = true)
     (hsc : ∀ v ∈ vs, inScopeO (viewOpts O) (.struct n fs) v = true)
     (hext : Lemmas.C03.ExtOK ext)
-    (hphys : ∀ a ∈ arrs, Read.physical a = true)
+    (hlen : vs.length ≤ 9223372036854775807)
     (hft : Trace.fromType c O (toTraceTy (.struct n fs)) = .ok fields)
     (htm : toMarrow ext fields (vs.map (ser (.struct n fs))) = .ok arrs) :
     readAll (toTarget (.struct n fs)) fields arrs = .ok (vs.map (dvalOf (.struct n fs))) := by
-  rw [C04_roundtrip_bulk_partial c O ext n fs vs fields arrs h0 hfrag hne hwt hsc hext hphys hft htm]
+  rw [C04_roundtrip_bulk_partial c O ext n fs vs fields arrs h0 hfrag hne hwt hsc hext hlen hft htm]
   congr 1
   apply List.map_congr_left
   intro v hv
